@@ -74,4 +74,18 @@ CHECKS = {
         'note': 'Trusted: python ast. Known findings: no decoder branch for Quantifier/Generalization, constraint element types, Publish in gamma/proof phases.',
         'design_ref': 'DESIGN.md section 3, C14',
     },
+    'C10': {
+        'level': 'proof',
+        'technique': 'modular schema type-checking of the lemma library by symbolic evaluation of method bodies (ast), with confinement rules',
+        'text': 'Type-checks every documented lemma of Propositional and Tautology (82 on the pinned tree) against its docstring schema: '
+                'the body is evaluated on fresh constants standing for arbitrary argument patterns and premise proofs of the documented '
+                'shape; callees contribute only their declared schema; modus ponens, instantiation, prop1-3 and declared axioms have '
+                'built-in rules; notation is expanded from pattern.py. By induction over the call graph each checked lemma returns '
+                'exactly its schema for all arguments and its internal assertions and rule applications cannot fail, using only the '
+                'allowed primitives. The pinned suite replays eight sample proofs; a lemma wrong off that path is invisible to it. '
+                'Eighteen methods (run-time matching, loops, prose docstrings) are declined by name in the evidence.',
+        'note': 'Trusted: the docstring grammar and binding convention, the built-in primitive rules, spec/axioms.py, python ast; that the '
+                'replayed conclusion equals the static one is the ProofThunk assertion (C08).',
+        'design_ref': 'DESIGN.md section 3, C10',
+    },
 }
